@@ -365,6 +365,31 @@ def s_pure(F, res):
     res.add([assumption("S-PURE", key, w, "is_only_naked is not an `all(..)` over the entries: not decided")])
 
 
+def s_faillate(F, res):
+    """S-FAILLATE (a necessary condition of "finds a match if one exists"): the resolver gives up on an input block only after
+    the selection ran and came back empty.  Every construction of `Error::InputNotResolved` in inputs::resolve (awaited helpers
+    inlined) is dominated by the selector's `select` call.  A shortcut that fails earlier - on a counter of the search space,
+    on the shape of the query - declares blocks unresolvable whose candidates were never looked at."""
+    b0 = F.body("tx3_resolver::inputs::resolve")
+    b = mir.inline_calls(F, b0, want=c04._HELPERS_ALL, depth=2)
+    cfg = mir.CFG(b)
+    sel = [bi for bi, t in mir.calls(b) if ((t.get("resolved") or t.get("callee") or "").startswith(c04.SELP + "select"))]
+    # the awaited selection: the poll of the future the select call created (inlined body) or the call itself
+    sel += [bi for bi, blk in enumerate(b["blocks"]) if (blk.get("inl") or "").startswith(c04.SELP + "select")]
+    sites = [(bi, s) for bi, si, s in mir.stmts(b) if s["rv"]["k"] == "agg" and s["rv"].get("adt") == "tx3_resolver::Error" and s["rv"].get("variant") == "InputNotResolved"]
+    key = "tx3_resolver::inputs::resolve|InputNotResolved only after an empty selection"
+    if not sel:
+        raise BrokenCheck("inputs::resolve (helpers inlined) never calls the selector")
+    if not sites:
+        res.add([assumption("S-FAILLATE", key, where(b0), "inputs::resolve builds no InputNotResolved itself: not decided")])
+        return
+    bad = [s for bi, s in sites if not any(x != bi and cfg.dominates(x, bi) for x in sel)]
+    if bad:
+        res.add([finding("S-FAILLATE", key, where(b0, bad[0]["line"]), "inputs::resolve reports InputNotResolved on a path on which the selection never ran: a block whose candidates would cover it is declared unresolvable")])
+    else:
+        res.add([ok("S-FAILLATE", key, where(b0), "%d construction(s), each dominated by the selector's select" % len(sites))])
+
+
 def s_predicate(F, res, label=""):
     for p in sorted(F.fns):
         m = re.search(r"<tx3_resolver::inputs::select::(\w+)::(\w+) as tx3_resolver::inputs::select::CoinSelection>::(pick_single|pick_many)$", p)
@@ -660,6 +685,8 @@ def run(ctx):
     s_include(F, res)
     s_collateral(F, res)
     s_pure(F, res)
+    res.rule("S-FAILLATE", "an input block is declared unresolvable only after the selection ran and came back empty")
+    s_faillate(F, res)
     s_predicate(F, res)
     s_trim(F, res)
     c04.s_fabricate(F, res)
